@@ -1,5 +1,7 @@
 import TmVerif.Model.LRProto
 import TmVerif.Model.LRRef
+import TmVerif.Model.LRJust
+import TmVerif.Model.LR1Merge
 namespace TmVerif.DriverC03
 open TmVerif.Proto TmVerif.LR TmVerif.LRRef TmVerif.CFG
 
@@ -9,6 +11,9 @@ def showCell : Cell → String
   | .errExplicit => "error(nonassoc)"
   | .err => "error"
 
+/-- bound on the number of canonical LR(1) states for the definitional cross-check -/
+def lr1Limit : Nat := 400
+
 /-- Compare the real tables with the reference LALR(1) construction; `ok sr rr` or the first
 difference. -/
 def compare (g : Grammar) (t : Tables) : Except String (Nat × Nat) := do
@@ -16,6 +21,17 @@ def compare (g : Grammar) (t : Tables) : Except String (Nat × Nat) := do
   let phi ← phiWalk g t
   let la := laFix g t phi
   if !laClosed g t la then throw "lookahead fixpoint not reached"
+  -- exactness from above (C03_la_exact): nullable/FIRST closed, start sets present, and every bit of
+  -- every set justified by a ranked derivation
+  if !nfClosed g then throw "nullable/FIRST fixpoint not reached"
+  if !laInitOk g la then throw "lookahead justification: a no-eoi start item lacks the full terminal set"
+  match laJustify g t phi la with
+  | none => throw "lookahead justification could not be computed (instrumented propagation differs from laFix)"
+  | some just => if !justOk g t la just then throw "lookahead justification rejected: a terminal of a computed lookahead set has no ranked derivation (the sets are not certified least)"
+  -- specification cross-check: canonical LR(1) merged by core (small collections only)
+  match LR1Merge.crossCheck g phi la lr1Limit with
+  | .differ m => throw m
+  | _ => pure ()
   let mut sr := 0
   let mut rr := 0
   for s in List.range t.nStates do
@@ -66,6 +82,17 @@ def handle (args : List String) : Option String :=
       let esr ← parseNat? esr; let err ← parseNat? err
       some (verdict g t sr rr haserr esr err)
     | _ => none
+  | "lr1merge" :: rest => do
+    -- diagnostic (not used by the harness): outcome of the LR(1)-merge cross-check on a `lalr1` case
+    let (g, t, _) ← parseGrammarTables rest
+    match phiWalk g t with
+    | .error _ => some "nophi"
+    | .ok phi =>
+      match LR1Merge.crossCheck g phi (laFix g t phi) lr1Limit with
+      | .agree n => some s!"agree {n} {t.nStates}"
+      | .skipped => some s!"skipped {t.nStates}"
+      | .degenerate => some s!"degenerate {t.nStates}"
+      | .differ m => some s!"differ {m}"
   | "judge" :: _ :: "::" :: "lalr1" :: rest => do
     -- the reference is the specification: a mismatch is a violation on this grammar
     let (g, t, rest) ← parseGrammarTables rest
